@@ -297,6 +297,15 @@ theorem C11_main_any_schedule (w : World) (f j : Nat) (c : Cmd) :
     holds w f { c with late := some j } (exec .repaired w f { c with late := some j })
       (exec .repaired w f ({ c with late := some j } : Cmd).strip) = true := C11_main w f _
 
+/-- **Concurrent commands of other connections never lend their identity**: while commands of any other connection
+`j` are being executed at the same time (`late := some j`; handlers are singletons shared by all connections), every
+answer to the command that arrived on connection `f` shows only objects the client authenticated on `f` is a party
+to, and changes only such objects — the other connection's client plays no role. -/
+theorem C11_concurrent_own_identity (w : World) (f j : Nat) (c : Cmd) :
+    (∀ o ∈ (exec .repaired w f { c with late := some j }).view, o.partyOf w (ident w f) = true) ∧
+    (∀ x ∈ (exec .repaired w f { c with late := some j }).chg, chgAllowed w (ident w f) { c with late := some j } x = true) :=
+  C11_parties_only w f { c with late := some j }
+
 /-! ### connection histories -/
 
 /-- **The identity of a connection is its last successful authentication**: after any history of handshake steps
@@ -458,6 +467,14 @@ example : holds wStd 0 { cmdOf 85 0 0 (-1) with late := some 1 } ⟨true, .none,
     ⟨true, .none, [], [.newDom 1002], [], []⟩ = false := by decide
 example : holds wStd 0 { cmdOf 85 0 0 (-1) with late := some 1 } ⟨true, .none, [], [.newDom 1001], [⟨1, 0, none⟩], []⟩
     ⟨true, .none, [], [.newDom 1001], [⟨1, 0, none⟩], []⟩ = false := by decide
+/-- ConfigGet of 1001 (connection 0) while ConfigGet commands of 1003 (connection 2) run concurrently: 1001 sees its own
+mapping; `holds` rejects an answer showing it a mapping of which only 1003 is a party -/
+def wConc : World :=
+  { conns := [⟨.auth, 1001, 0⟩, ⟨.auth, 1002, 0⟩, ⟨.auth, 1003, 0⟩], maps := [⟨1001, 1002, true, true⟩, ⟨1003, 1003, false, false⟩],
+    codes := [], doms := [] }
+example : (exec .repaired wConc 0 { cmdOf 50 0 0 0 with late := some 2 }).view = [.map 0] := by decide
+example : holds wConc 0 { cmdOf 50 0 0 0 with late := some 2 } (Run.okResp [.map 0, .map 1] [] []) (Run.okResp [.map 0, .map 1] [] []) = false := by
+  decide
 /-- cross-node DNS query (`handleDNSQueryCrossNode`): the authenticated sender on node 0 reaches the target on node 1
 through the state store / pool / listener, the pushed request names no sender; an unauthenticated sender reaches
 nobody; and `holds` rejects an observation in which the recipient was told a (claimed) sender -/
